@@ -498,7 +498,8 @@ def r3_hash_memory(ctx, F):
         ctx.violation("UNANALYSABLE|sha256::hash_memory", loc, "expected exactly one loop")
         return
     # the arithmetic prefix ends where the initial hash state is pushed (the eight constants of FIPS 180-4)
-    pre, loop = p.body[:wi[0]], p.body[wi[0]]
+    from .masm import expand
+    pre, loop = expand(M, p.body[:wi[0]]), p.body[wi[0]]      # local helpers without locals / repeats written out (exact by definition)
     h0 = {"0x%08x" % x for x in hashref.SHA_H0}
     cut = next((i for i, n in enumerate(pre) if n[0] == "ins" and n[1].startswith("push.") and set(n[1].split(".")[1:]) & h0), None)
     if cut is None:
